@@ -341,6 +341,18 @@ def run_check(mod, tier: str, replay: Optional[str] = None, n_override: Optional
         print(f"CHECK-BROKEN property={pid}: theorems missing or with unexpected axioms: {bad}")
         return 2
 
+    # proof obligations regenerated from /repo's current source by a translator (optional, per property)
+    broken_obligations: List[Dict[str, str]] = []
+    translated: List[Dict[str, Any]] = []
+    if hasattr(mod, "extra_obligations") and not replay:
+        for ob in mod.extra_obligations():
+            obligations += 1
+            translated.append({"name": ob["name"], "ok": ob["ok"], "axioms": ob.get("axioms")})
+            if ob["ok"]:
+                discharged += 1
+            else:
+                broken_obligations.append(ob)
+
     open_findings, fixed = load_findings(pid)
     open_ids = {f["id"] for f in open_findings}
 
@@ -391,6 +403,18 @@ def run_check(mod, tier: str, replay: Optional[str] = None, n_override: Optional
                 known_seen[t] = known_seen.get(t, 0) + 1
 
     searched = 0
+    if broken_obligations and not fails and not corrs:
+        # a regenerated proof obligation no longer checks: look harder for a concrete failing input
+        factor = 4 if tier == "quick" else 20
+        srng = random.Random(f"{pid}:{seed}:search-obligation")
+        extra = list(mod.generate(srng, tier, n * factor))
+        for c in extra:
+            c.origin = "search"
+        sv = evaluate(mod, extra, open_ids)
+        searched = len(sv)
+        fails = [v for v in sv if v.kind == "fail"]
+        corrs = [v for v in sv if v.kind == "corr"]
+        verdicts.extend(sv)
     # 4. correspondence broken and no failing input yet: search ------------------------------------------
     if corrs and not fails:
         factor = 4 if tier == "quick" else 20
@@ -432,6 +456,20 @@ def run_check(mod, tier: str, replay: Optional[str] = None, n_override: Optional
         line = f"VIOLATION property={pid} replay={path} no-failing-input-found"
         print(line)
         violations.append(line)
+    elif broken_obligations:
+        REPLAY_DIR.mkdir(exist_ok=True)
+        path = REPLAY_DIR / f"{pid}_obligation.json"
+        path.write_text(json.dumps({
+            "property": pid,
+            "what": "proof obligation regenerated from the current source no longer checks; no concrete failing input "
+                    "was found on the explored cases",
+            "obligations": [{"name": o["name"], "detail": o.get("detail", "")[-3000:]} for o in broken_obligations],
+            "searched_cases": searched, "seed": seed}, indent=1))
+        for o in broken_obligations:
+            print(f"obligation {o['name']} failed:\n{o.get('detail', '')[-1500:]}")
+        line = f"VIOLATION property={pid} replay=replays/{path.name} no-failing-input-found"
+        print(line)
+        violations.append(line)
 
     # 5. evidence -------------------------------------------------------------------------------------
     distinct = {}
@@ -457,6 +495,7 @@ def run_check(mod, tier: str, replay: Optional[str] = None, n_override: Optional
             "checker_cmd": "cd lean && lake build && lake env lean <generated Audit file: #print axioms of every theorem>",
             "trusted_base": list(mod.TRUSTED),
             "theorems": {t: audit["theorems"][t]["axioms"] for t in mod.THEOREMS},
+            "translated_obligations": translated,
             "evaluations": len(verdicts),
             "distinct_nontrivial": len(distinct),
             "rule": mod.RULE,
